@@ -1496,6 +1496,17 @@ func (m *Model) globalMapWritten(pkg, name string) string {
 				if target == nil {
 					continue
 				}
+				for d := 0; d < 4; d++ { // an element or a field of the variable is part of it
+					switch t := target.(type) {
+					case *ssa.IndexAddr:
+						target = t.X
+						continue
+					case *ssa.FieldAddr:
+						target = t.X
+						continue
+					}
+					break
+				}
 				if ld, ok := target.(*ssa.UnOp); ok && ld.Op == token.MUL {
 					target = ld.X
 				}
